@@ -936,6 +936,12 @@ func (x *Exec) lookup(fr *Frame, st *State, i *ssa.Lookup) V {
 	pres := x.define("mp", "Bool", x.mapPresent(st, m, ks))
 	val := x.define("mv", x.s.sortOf(mt.Elem()), ite(pres, x.mapValue(st, m, ks), x.s.zero(mt.Elem())))
 	x.assume(st.guard, x.valueInv(st, mt.Elem(), val))
+	if _, isFn := mt.Elem().Underlying().(*types.Signature); isFn {
+		if dt, _ := x.dispatchTableOf(i); dt != nil {
+			// a dispatch table registers named functions only: a present key has a non-nil value
+			x.assume(st.guard, implies(pres, "(not (= "+val+" 0))"))
+		}
+	}
 	vv := V{T: mt.Elem(), S: val}
 	if i.CommaOk {
 		return V{T: i.Type(), Tup: []V{vv, {T: types.Typ[types.Bool], S: pres}}}
